@@ -112,6 +112,12 @@ class JSONPathRecursiveDescentSegment(JSONPathSegment):
         depth: int = 1,
     ) -> Iterable[JSONPathNode]:
         """Nondeterministic node traversal."""
+        # The queue below is visited breadth-first-ish, so self-referential
+        # data with two or more container children per level would be expanded
+        # exponentially before a too-deep node is dequeued. Check the depth up
+        # front, depth-first, in time proportional to max_recursion_depth.
+        self._check_depth(root.value, depth)
+
         # (node, depth) tuples
         queue: Deque[Tuple[JSONPathNode, int]] = deque([(root, depth)])
 
@@ -144,6 +150,31 @@ class JSONPathRecursiveDescentSegment(JSONPathSegment):
                         len(queue) + len(children),
                     )
                 ]
+            )
+
+    def _check_depth(self, value: object, depth: int) -> None:
+        """Raise a JSONPathRecursionError if _value_ is nested too deeply."""
+        stack = [(value, depth)]
+
+        while stack:
+            value, depth = stack.pop()
+
+            if isinstance(value, dict):
+                children: Iterable[object] = value.values()
+            elif isinstance(value, list):
+                children = value
+            else:
+                continue
+
+            if depth > self.env.max_recursion_depth:
+                raise JSONPathRecursionError(
+                    "recursion limit exceeded", token=self.token
+                )
+
+            stack.extend(
+                (child, depth + 1)
+                for child in children
+                if isinstance(child, (dict, list))
             )
 
     def __str__(self) -> str:
